@@ -85,6 +85,9 @@ func (kt *kindTable) decodeOutcomes(k int64, nullable bool) []decodeOutcome {
 }
 
 func checkC06(p *Prog, r *Report) {
+	r.rule("C06.partial-presence (imported from C13.presence): the partial function adds a relationship exactly when its object carries a data member (a null linkage included), so the relationships listed in an accepted payload are all held by the result")
+	nPP := r.importRules(func(r2 *Report) { checkC13(p, r2) }, "C06.partial-presence", "C13.presence")
+	r.floor("imported presence obligations", nPP, 1)
 	r.rule("R2 integer decoding (scenario evaluation of Attr.UnmarshalToType, one scenario per integer kind x nullable): the stored value is parser(string(data), 10, B) converted to the kind's Go type of width W with the parser's signedness equal to the kind's and B <= W, so no accepted literal is truncated or reinterpreted (B >= W is C01's obligation); widths are those of the GOARCH under analysis")
 	r.rule("C06.bool: a boolean attribute's value is a constant decided by comparing the raw bytes with the literals true and false only")
 	r.rule("C06.to-many-emission: the loop of MarshalResource that writes a to-many relationship's identifiers extends the list on every iteration (re-marshaling reproduces every listed ID, repeated ones included)")
